@@ -111,7 +111,11 @@ def run_case(rec, pool, dimcoords, ci, carry, kc, seed, g=None, ds=None, sizes="
                 rec.counters["misfit-input-accepted"] += 1
             except Exception:
                 rec.counters["misfit-input-refused"] += 1
-    da = xr.DataArray(vals, dims=["t", din], name="foo")
+    # the input's name: usually "foo"; in part of the cases the name of one of the dataset's coordinates (the result of an
+    # earlier operation on that coordinate): the name is kept and the coordinate is attached all the same
+    fitting = [c for c in pool if not c.endswith("_" + din)]
+    in_name = fitting[0] if fitting and (ci + len(pool) + (1 if kc else 0)) % 3 == 0 else "foo"
+    da = xr.DataArray(vals, dims=["t", din], name=in_name)
     if carry == "own":
         da = da.assign_coords({c: ds.coords[c] for c in ds.coords if set(ds.coords[c].dims) <= set(da.dims)})
     elif carry == "dims-only":
@@ -126,8 +130,11 @@ def run_case(rec, pool, dimcoords, ci, carry, kc, seed, g=None, ds=None, sizes="
             warnings.simplefilter("ignore")
             # keep_coords=False is the documented default: left out in part of the cases
             kckw = {} if (not kc and (ci + len(pool)) % 2) else dict(keep_coords=kc)
+            if kc:
+                # a true flag that is not the Python singleton (a NumPy boolean, 1)
+                kckw = dict(keep_coords=(True, np.True_, 1)[(ci + len(pool)) % 3])
             r = getattr(g, op)(da, "X", to=to, boundary=bnd, **kckw)
-            base = getattr(g, op)(xr.DataArray(vals, dims=["t", din], name="foo"), "X", to=to, boundary=bnd, **kckw)
+            base = getattr(g, op)(xr.DataArray(vals, dims=["t", din], name=in_name), "X", to=to, boundary=bnd, **kckw)
     except Exception as e:
         rec.violation("labels", "raise:" + exc_sig(e), case, "array", f"{type(e).__name__}: {e}"[:200])
         return
@@ -146,8 +153,8 @@ def run_case(rec, pool, dimcoords, ci, carry, kc, seed, g=None, ds=None, sizes="
             continue
         if c in r.dims or kc:
             exp[c] = v
-    if r.name != "foo":
-        rec.violation("labels", "name-not-kept", case, "foo", r.name)
+    if r.name != in_name:
+        rec.violation("labels", "name-not-kept", case, in_name, r.name)
         return
     stale = [str(c) for c in r.coords if din in r.coords[c].dims]
     if stale:
